@@ -62,6 +62,12 @@ CHECKS["C13"] = {
     "harnesses": [
         {"name": "partial", "pkg": "internal/response", "pkgname": "response", "entry": "VerifC13Partial", "files": ["zz_verif_c13.go"],
          "params": {"quick": grid(len=[0, 1, 2, 4]), "thorough": grid(len=[0, 1, 2, 3, 4, 5, 6, 8])}, "cover": []},
+        {"name": "split", "pkg": "rfc822", "pkgname": "rfc822", "entry": "VerifSplit", "files": ["zz_verif_rfc822.go"],
+         "params": {"quick": grid(n=[0, 1, 2, 3, 4, 5]), "thorough": grid(n=[0, 1, 2, 3, 4, 5, 6, 7, 8])}, "cover": []},
+        {"name": "setheader", "pkg": "rfc822", "pkgname": "rfc822", "entry": "VerifSetHeader", "files": ["zz_verif_rfc822.go"],
+         "params": {"quick": grid(n=[3, 4, 5]), "thorough": grid(n=[3, 4, 5, 6, 7])}, "cover": ["set-header-ok", "keyed-field"]},
+        {"name": "fields", "pkg": "rfc822", "pkgname": "rfc822", "entry": "VerifFields", "files": ["zz_verif_rfc822.go"],
+         "params": {"quick": grid(n=[3, 4], fieldLen=[1]) + grid(n=[4], fieldLen=[2]), "thorough": grid(n=[3, 4, 5, 6], fieldLen=[1, 2])}, "cover": ["field-selected"]},
     ],
     "stubs": [],
     "outside": ["literals longer than the byte bound", "the {n} framing text produced by fmt from len(literal)", "store round trip (C09)"],
@@ -119,4 +125,19 @@ CHECKS["C05"] = {
     "stubs": CHECKS["C01"]["stubs"],
     "outside": ["the session-level command table (which commands flush with permitExpunge) - see DESIGN", "the [EXPUNGEISSUED] response code rendering"],
     "assumptions": CHECKS["C01"]["assumptions"],
+}
+
+CHECKS["C12"] = {
+    "explanation": "Symbolic execution of gluon's message parsing kernels on arbitrary symbolic byte strings of bounded length: rfc822 header parser (progress and offset ordering per step, so termination for any length follows by induction on the offset), Split, the multipart boundary scanner and Section tree (parts inside parents, ordered, disjoint), rfc5322 address/date parsers (no panic, termination at end of input).",
+    "harnesses": [
+        {"name": "headerparser", "pkg": "rfc822", "pkgname": "rfc822", "entry": "VerifHeaderParser", "files": ["zz_verif_rfc822.go"],
+         "params": {"quick": grid(n=[0, 1, 2, 3, 4, 5]), "thorough": grid(n=list(range(0, 9)))}, "cover": []},
+        {"name": "boundary", "pkg": "rfc822", "pkgname": "rfc822", "entry": "VerifBoundaryScanner", "files": ["zz_verif_rfc822.go"],
+         "params": {"quick": grid(n=[0, 1, 2, 3, 4, 5, 6]), "thorough": grid(n=list(range(0, 10)))}, "cover": []},
+        {"name": "sections", "pkg": "rfc822", "pkgname": "rfc822", "entry": "VerifSections", "files": ["zz_verif_rfc822.go"],
+         "params": {"quick": grid(n=[0, 3, 5, 6]), "thorough": grid(n=list(range(0, 9)))}, "cover": []},
+    ],
+    "stubs": [],
+    "outside": ["inputs longer than the byte bound (reached only through the per-step progress obligations)", "encoded-word / charset decoding", "the exact MIME tree of well-formed messages (structure equality) - only containment/ordering is decided"],
+    "assumptions": [],
 }
